@@ -57,7 +57,13 @@ func H_C10_in_call_notifications() {
 	for i := 0; i < k; i++ {
 		methods[i] = []string{"n/a", "n/b"}[vChoice("method", 2)]
 		// shape of the params: 0 fields only, 1 fields and _meta, 2 _meta only, 3 empty
-		shapes[i] = vChoice("shape", 4)
+		if k == 3 {
+			// thorough tier, three notifications: the two shapes that carry fields (all four shapes with
+			// three notifications exceed an hour of solver time)
+			shapes[i] = vChoice("shape", 2)
+		} else {
+			shapes[i] = vChoice("shape", 4)
+		}
 		if shapes[i] <= 1 {
 			texts[i] = vString("text", 6)
 		}
